@@ -155,6 +155,9 @@ var freeVersions = []string{"1", "1.", "1.4", "1.10", "1.x", "1.3.1", "1.3 ", "0
 
 var badNATs = []string{"Unknown", "UNKNOWN", "Restricted", "Unrestricted", "unknown ", " unknown", "unknown\x00", "\x00", "unrestricte", "unrestricted1", "restricted,unrestricted", "un", "symmetric", "none", "true", "0", "null", "нет", "unknоwn", "\"unknown\"", "unknown\n"}
 
+// long and non-ASCII: a NAT value nobody could mistake for one of the names
+var longBadNAT = strings.Repeat("unknown,нет;", 60)
+
 const hexLower = "0123456789abcdef"
 const hexUpper = "0123456789ABCDEF"
 
@@ -364,6 +367,9 @@ func genNATvalid(r *vlib.Rand) string {
 }
 
 func genBadNAT(r *vlib.Rand) string {
+	if r.Chance(1, 12) {
+		return longBadNAT
+	}
 	if r.Chance(2, 3) {
 		return badNATs[r.Intn(len(badNATs))]
 	}
